@@ -667,6 +667,8 @@ func addTimeSubs(cfg *ResponseConfig, a *asset, period *m.Period, languages []st
 		if vST.StartNumber != nil {
 			st.StartNumber = vST.StartNumber
 		}
+		// The subtitle segments become available together with the video segments
+		st.AvailabilityTimeOffset = vST.AvailabilityTimeOffset
 		if vST.SegmentTimeline != nil {
 			// Create segmentTimeline for subtitles from vST
 			st.SegmentTimeline = changeTimelineTimescale(vST.SegmentTimeline, int(*vST.Timescale), SUBS_TIME_TIMESCALE)
